@@ -254,3 +254,201 @@ Proof.
   apply perm_names_le. apply Permutation_sym. rewrite Hq. apply decl_names_perm. exact Hcol.
 Qed.
 
+(* ---------- the final world of a run: the compiled declarations are the instances of the final table ---------- *)
+Lemma find_decl_data_name : forall k l d, find_decl (map compile_data l) (new_id k) = Some d -> In k (map fdaname l).
+Proof.
+  intros k l d. induction l as [|x r IH]; unfold find_decl; simpl; intros H; [discriminate|].
+  rewrite cid_eqb_new_id in H. destruct (String.eqb (fdaname x) k) eqn:E; [left; apply String.eqb_eq; exact E|right; apply IH; exact H].
+Qed.
+Lemma find_decl_codata_name : forall k l d, find_decl (map compile_codata l) (new_id k) = Some d -> In k (map fcoaname l).
+Proof.
+  intros k l d. induction l as [|x r IH]; unfold find_decl; simpl; intros H; [discriminate|].
+  rewrite cid_eqb_new_id in H. destruct (String.eqb (fcoaname x) k) eqn:E; [left; apply String.eqb_eq; exact E|right; apply IH; exact H].
+Qed.
+Lemma tyd_declared : forall q t, tyd (cdata_of q) (ccodata_of q) (compile_ty t) = true -> ty_declared (decl_names q) t = true.
+Proof.
+  intros q [|n a] H; [reflexivity|]. simpl. apply smem_In. rewrite <- print_ty_decl.
+  unfold tyd, ty_ok in H. unfold compile_ty in H. rewrite show_fty_print in H. unfold decl_names. apply in_or_app.
+  destruct (find_decl (cdata_of q) _) eqn:E1.
+  - left. eapply find_decl_data_name. exact E1.
+  - destruct (find_decl (ccodata_of q) _) eqn:E2; [|discriminate]. right. eapply find_decl_codata_name. exact E2.
+Qed.
+Lemma find_decl_data_nodup : forall l d, NoDup (map fdaname l) -> In d l ->
+  find_decl (map compile_data l) (new_id (fdaname d)) = Some (compile_data d).
+Proof.
+  induction l as [|x r IH]; intros d Hn Hin; [destruct Hin|]. unfold find_decl. simpl. rewrite cid_eqb_new_id.
+  inversion Hn as [|? ? Hx Hr]; subst. destruct Hin as [->|Hin]; [rewrite String.eqb_refl; reflexivity|].
+  destruct (String.eqb (fdaname x) (fdaname d)) eqn:E.
+  - apply String.eqb_eq in E. exfalso. apply Hx. rewrite E. apply in_map. exact Hin.
+  - apply IH; assumption.
+Qed.
+Lemma find_decl_codata_nodup : forall l d, NoDup (map fcoaname l) -> In d l ->
+  find_decl (map compile_codata l) (new_id (fcoaname d)) = Some (compile_codata d).
+Proof.
+  induction l as [|x r IH]; intros d Hn Hin; [destruct Hin|]. unfold find_decl. simpl. rewrite cid_eqb_new_id.
+  inversion Hn as [|? ? Hx Hr]; subst. destruct Hin as [->|Hin]; [rewrite String.eqb_refl; reflexivity|].
+  destruct (String.eqb (fcoaname x) (fcoaname d)) eqn:E.
+  - apply String.eqb_eq in E. exfalso. apply Hx. rewrite E. apply in_map. exact Hin.
+  - apply IH; assumption.
+Qed.
+Lemma NoDup_app_l : forall {X} (a b : list X), NoDup (a ++ b) -> NoDup a.
+Proof. induction a as [|x r IH]; intros b H; [constructor|]. inversion H; subst. constructor; [intros Hx; apply H2; apply in_or_app; auto|eauto]. Qed.
+Lemma NoDup_app_r : forall {X} (a b : list X), NoDup (a ++ b) -> NoDup b.
+Proof. induction a as [|x r IH]; intros b H; [exact H|]. inversion H; subst. eauto. Qed.
+Lemma Forall2_map_l_in : forall {X Y Z} (f : X -> Y) (P : Y -> Z -> Prop) (Q : X -> Z -> Prop) l cs,
+  Forall2 P (map f l) cs -> (forall x c, In x l -> In c cs -> P (f x) c -> Q x c) -> Forall2 Q l cs.
+Proof.
+  intros X Y Z f P Q l. induction l as [|x r IH]; intros cs H HPQ; simpl in H; inversion H; subst; constructor.
+  - apply HPQ; [left; reflexivity|left; reflexivity|assumption].
+  - apply IH; [assumption|]. intros x0 c Hin Hc. apply HPQ; right; assumption.
+Qed.
+
+Section World.
+  Variable ts : list tdecl.
+  Variable fs : list fdef.
+  Hypothesis W : poly_world ts fs.
+  Variable q : fcprog.
+  Variable st1 : symtab.
+  Variables (das : list fdata) (cos : list fcodata).
+  Hypothesis I1 : pinv ts st1.
+  Hypothesis Hcol : collect_types st1 (st_types st1) = COk (das, cos).
+  Hypothesis Hq : q = mkfcprog (sort_by_name fdaname das) (sort_by_name fcoaname cos) (fcpdefs q).
+  Hypothesis Hx : xtor_tys_guard q = true.
+
+  Lemma world_perm : Permutation (decl_names q) (ikeys st1).
+  Proof. rewrite Hq. apply decl_names_perm. exact Hcol. Qed.
+  Lemma world_nodup : NoDup (decl_names q).
+  Proof. eapply Permutation_NoDup; [apply Permutation_sym; apply world_perm|]. apply (pi_nodup _ _ I1). Qed.
+
+  Lemma world_tyd_inst : forall t, tyd (cdata_of q) (ccodata_of q) (compile_ty t) = true -> has_inst_p st1 t.
+  Proof.
+    intros t H. apply declared_has_inst. eapply ty_declared_mono; [|apply tyd_declared; exact H].
+    apply perm_names_le. apply world_perm.
+  Qed.
+
+  (* the entry of an instance in the final table *)
+  Lemma world_entry : forall td targs, In td ts -> targs_ok ts td targs -> has_inst_p st1 (FDecl (td_name td) targs) ->
+    In ((td_name td ++ print_targs targs)%string, (td_pol td, targs, map xs_name (td_xtors td))) (st_types st1).
+  Proof.
+    intros td targs Htd Hok Hi. simpl in Hi. apply ahas_true in Hi. destruct Hi as [[[pol targs'] xs] Hg].
+    destruct (pi_types _ _ I1 _ _ _ _ Hg) as [td' [Htd' [Ekey [Hpol [Hxs Hok']]]]].
+    destruct (instance_name_inj _ _ _ _ (name_ok_no_delim _ (PW_tnames _ _ W td Htd)) (name_ok_no_delim _ (PW_tnames _ _ W td' Htd'))
+                (targs_ok_names ts fs W _ _ Hok) (targs_ok_names ts fs W _ _ Hok') Ekey) as [En <-].
+    assert (td' = td).
+    { pose proof (pw_find_type ts fs W td Htd) as F1. pose proof (pw_find_type ts fs W td' Htd') as F2.
+      rewrite En in F1. rewrite F1 in F2. inversion F2. reflexivity. }
+    subst td'. subst pol xs. apply aget_In. exact Hg.
+  Qed.
+  Lemma world_entry_unique : forall k v v', In (k, v) (st_types st1) -> In (k, v') (st_types st1) -> v = v'.
+  Proof.
+    intros k v v' H H'. pose proof (In_aget _ _ _ (pi_nodup _ _ I1) H) as G. pose proof (In_aget _ _ _ (pi_nodup _ _ I1) H') as G'.
+    rewrite G in G'. inversion G'. reflexivity.
+  Qed.
+
+  Lemma world_data : forall td targs, In td ts -> td_pol td = FData -> targs_ok ts td targs ->
+    has_inst_p st1 (FDecl (td_name td) targs) ->
+    exists cs, find_decl (cdata_of q) (new_id (td_name td ++ print_targs targs))
+               = Some (mkct CData (new_id (td_name td ++ print_targs targs)) (map compile_ctor cs))
+      /\ Forall2 (Rdata st1 td targs) (td_xtors td) cs.
+  Proof.
+    intros td targs Htd Hp Hok Hi. pose proof (world_entry td targs Htd Hok Hi) as He. rewrite Hp in He.
+    destruct (collect_types_spec _ _ _ _ Hcol) as [Hperm [Hda Hco]].
+    set (key := (td_name td ++ print_targs targs)%string) in *.
+    assert (Hk : In key (map fdaname das ++ map fcoaname cos)).
+    { eapply Permutation_in; [apply Permutation_sym; exact Hperm|]. change key with (fst (key, (FData, targs, map xs_name (td_xtors td)))).
+      apply in_map. exact He. }
+    apply in_app_or in Hk. destruct Hk as [Hk|Hk].
+    - apply in_map_iff in Hk. destruct Hk as [d [Ed Hd]].
+      rewrite Forall_forall in Hda. destruct (Hda d Hd) as [[name [[pol targs'] xs]] [He' Hof]]. simpl in Hof.
+      destruct Hof as [-> [En [_ HF]]]. rewrite Ed in En. subst name.
+      pose proof (world_entry_unique _ _ _ He He') as Ev. inversion Ev; subst targs' xs. clear Ev.
+      assert (Hdq : In d (fcpdata q)).
+      { rewrite Hq. simpl. eapply Permutation_in; [apply Permutation_sym; apply sort_by_name_perm|exact Hd]. }
+      exists (fdactors d). split.
+      + pose proof (find_decl_data_nodup (fcpdata q) d (NoDup_app_l _ _ world_nodup) Hdq) as Hf.
+        unfold cdata_of. rewrite Ed in Hf. rewrite Hf. unfold compile_data. rewrite Ed. reflexivity.
+      + eapply Forall2_map_l_in; [exact HF|]. intros s c Hs Hc [En Hg]. simpl in En, Hg.
+        pose proof (PW_xnames _ _ W td s Htd Hs) as Nx.
+        destruct (ctor_instance_sound ts fs W _ _ _ _ I1 Nx (targs_ok_names ts fs W _ _ Hok) Hg) as [td' [s' [Htd' [Hp' [Hs' [Hn' [_ Ea]]]]]]].
+        destruct (xtor_owner_unique ts fs W td td' s s' Htd Htd' ltac:(congruence) Hs Hs' ltac:(congruence)) as [<- <-].
+        unfold Rdata. splits; auto.
+        intros b Hb. apply world_tyd_inst.
+        pose proof Hx as Hx'. unfold xtor_tys_guard in Hx'. cbv zeta in Hx'. rewrite forallb_forall in Hx'.
+        assert (Hin : In (compile_data d) (cdata_of q ++ ccodata_of q)) by (apply in_or_app; left; unfold cdata_of; apply in_map; exact Hdq).
+        specialize (Hx' _ Hin). rewrite forallb_forall in Hx'.
+        assert (Hinc : In (compile_ctor c) (ctxtors (compile_data d))) by (unfold compile_data; simpl; apply in_map; exact Hc).
+        specialize (Hx' _ Hinc). rewrite forallb_forall in Hx'.
+        apply (Hx' (compile_binding b)). unfold compile_ctor. simpl. unfold compile_ctx. apply in_map. exact Hb.
+    - exfalso. apply in_map_iff in Hk. destruct Hk as [d [Ed Hd]].
+      rewrite Forall_forall in Hco. destruct (Hco d Hd) as [[name [[pol targs'] xs]] [He' Hof]]. simpl in Hof.
+      destruct Hof as [-> [En _]]. rewrite Ed in En. subst name.
+      pose proof (world_entry_unique _ _ _ He He') as Ev. inversion Ev.
+  Qed.
+
+  Lemma world_codata : forall td targs, In td ts -> td_pol td = FCodata -> targs_ok ts td targs ->
+    has_inst_p st1 (FDecl (td_name td) targs) ->
+    exists ds, find_decl (ccodata_of q) (new_id (td_name td ++ print_targs targs))
+               = Some (mkct CCodata (new_id (td_name td ++ print_targs targs)) (map compile_dtor ds))
+      /\ Forall2 (Rcodata st1 td targs) (td_xtors td) ds.
+  Proof.
+    intros td targs Htd Hp Hok Hi. pose proof (world_entry td targs Htd Hok Hi) as He. rewrite Hp in He.
+    destruct (collect_types_spec _ _ _ _ Hcol) as [Hperm [Hda Hco]].
+    set (key := (td_name td ++ print_targs targs)%string) in *.
+    assert (Hk : In key (map fdaname das ++ map fcoaname cos)).
+    { eapply Permutation_in; [apply Permutation_sym; exact Hperm|]. change key with (fst (key, (FCodata, targs, map xs_name (td_xtors td)))).
+      apply in_map. exact He. }
+    apply in_app_or in Hk. destruct Hk as [Hk|Hk].
+    - exfalso. apply in_map_iff in Hk. destruct Hk as [d [Ed Hd]].
+      rewrite Forall_forall in Hda. destruct (Hda d Hd) as [[name [[pol targs'] xs]] [He' Hof]]. simpl in Hof.
+      destruct Hof as [-> [En _]]. rewrite Ed in En. subst name.
+      pose proof (world_entry_unique _ _ _ He He') as Ev. inversion Ev.
+    - apply in_map_iff in Hk. destruct Hk as [d [Ed Hd]].
+      rewrite Forall_forall in Hco. destruct (Hco d Hd) as [[name [[pol targs'] xs]] [He' Hof]]. simpl in Hof.
+      destruct Hof as [-> [En [_ HF]]]. rewrite Ed in En. subst name.
+      pose proof (world_entry_unique _ _ _ He He') as Ev. inversion Ev; subst targs' xs. clear Ev.
+      assert (Hdq : In d (fcpcodata q)).
+      { rewrite Hq. simpl. eapply Permutation_in; [apply Permutation_sym; apply sort_by_name_perm|exact Hd]. }
+      exists (fcodtors d). split.
+      + pose proof (find_decl_codata_nodup (fcpcodata q) d (NoDup_app_r _ _ world_nodup) Hdq) as Hf.
+        unfold ccodata_of. rewrite Ed in Hf. rewrite Hf. unfold compile_codata. rewrite Ed. reflexivity.
+      + eapply Forall2_map_l_in; [exact HF|]. intros s c Hs Hc [En Hg]. simpl in En, Hg.
+        pose proof (PW_xnames _ _ W td s Htd Hs) as Nx.
+        destruct (dtor_instance_sound ts fs W _ _ _ _ _ I1 Nx (targs_ok_names ts fs W _ _ Hok) Hg)
+          as [td' [s' [r0 [Htd' [Hp' [Hs' [Hn' [_ [Hr [Ea Er]]]]]]]]]].
+        destruct (xtor_owner_unique ts fs W td td' s s' Htd Htd' ltac:(congruence) Hs Hs' ltac:(congruence)) as [<- <-].
+        pose proof Hx as Hx'. unfold xtor_tys_guard in Hx'. cbv zeta in Hx'. rewrite forallb_forall in Hx'.
+        assert (Hin : In (compile_codata d) (cdata_of q ++ ccodata_of q)) by (apply in_or_app; right; unfold ccodata_of; apply in_map; exact Hdq).
+        specialize (Hx' _ Hin). rewrite forallb_forall in Hx'.
+        assert (Hinc : In (compile_dtor c) (ctxtors (compile_codata d))) by (unfold compile_codata; simpl; apply in_map; exact Hc).
+        specialize (Hx' _ Hinc). rewrite forallb_forall in Hx'.
+        unfold Rcodata. splits; eauto.
+        * intros b Hb. apply world_tyd_inst.
+          apply (Hx' (compile_binding b)). unfold compile_dtor. simpl. apply in_or_app. left. unfold compile_ctx. apply in_map. exact Hb.
+        * apply world_tyd_inst.
+          apply (Hx' (mkcb (new_id (fst (fresh_name (fvars (fdtargs c)) "a"))) CCns (compile_ty (fdtcont c)))).
+          unfold compile_dtor. simpl. apply in_or_app. right. left. reflexivity.
+  Qed.
+End World.
+
+(* ---------- the theorems ---------- *)
+Theorem check_gen_tyguard_src : forall eager p q,
+  prog_names_ok p = true -> no_cont_decl p = true ->
+  check_gen eager p = COk q -> xtor_tys_guard q = true -> prog_tyguard_src q = true.
+Proof.
+  intros eager p q Hm Hnc H Hx.
+  destruct (check_gen_run_defs eager p q Hm H) as [st [st1 [das [cos [W [Tb [I0 [Hdefs [I1 [Hcol [Hq Hnm]]]]]]]]]]].
+  unfold prog_tyguard_src. rewrite (check_gen_decls_tyguard eager p q Hm Hnc H). simpl.
+  destruct (check_defs_gen_sigs _ _ _ _ _ Hdefs) as [_ Hsig].
+  eapply (check_defs_gen_ptg _ _ W q (cdata_of q) (ccodata_of q) st1
+            (final_world_types q st1 das cos Hcol Hq) Hsig
+            (world_data _ _ W q st1 das cos I1 Hcol Hq Hx) (world_codata _ _ W q st1 das cos I1 Hcol Hq Hx)
+            eager _ st (fcpdefs q) st1 Hnm Tb I0 Hdefs (grows_refl _)).
+  intros d' Hd' Hc. unfold calls_main_prog. apply existsb_exists. exists d'. auto.
+Qed.
+
+Theorem check_tyguard : forall p q,
+  prog_names_ok p = true -> no_cont_decl p = true ->
+  check p = COk q -> xtor_tys_guard q = true -> prog_tyguard q = true.
+Proof.
+  intros p q Hm Hnc H Hx. apply (tyguard_src_checked true p q H). exact (check_gen_tyguard_src true p q Hm Hnc H Hx).
+Qed.
